@@ -10,6 +10,7 @@ package main
 //   dup       no two inputs spend the same outpoint
 //   modin     no input added while the inputs-modifiable flag was clear (modout: outputs)
 //   locktime  Locktime() is the largest required locktime of the kind BIP-370 selects, else the fallback
+//   signedlock AddInputs does not move Locktime() of a packet that carries partial signatures
 //   reparse   ToBase64 -> NewPsetFromBase64 -> ToBase64 gives the same string and the packet read back is the packet written
 //   atomic    a multi-part operation that returned an error left ToBase64 unchanged
 //   frozen    a multi-part operation did not alter an input that was already finalized
@@ -231,6 +232,12 @@ func checkHist(t *Toks) string {
 		s := &snapshot{nin: len(p.Inputs), nout: len(p.Outputs), inMod: p.InputsModifiable(), outMod: p.OutputsModifiable(), finalized: map[int]string{}}
 		s.b64, _ = p.ToBase64()
 		s.proj = v.projPset(p)
+		s.locktime = p.Locktime()
+		for i := range p.Inputs {
+			if len(p.Inputs[i].PartialSigs) > 0 {
+				s.hasPsigs = true
+			}
+		}
 		for i := range p.Inputs {
 			if len(p.Inputs[i].FinalScriptSig) > 0 || len(p.Inputs[i].FinalScriptWitness) > 0 {
 				s.finalized[i] = soloInput(p.Inputs[i])
@@ -287,6 +294,10 @@ func checkHist(t *Toks) string {
 		}
 		if !before.inMod && len(p.Inputs) > before.nin {
 			add(op+".modin", "input-added-while-locked")
+		}
+		// the partial signatures of the packet commit to its locktime: AddInputs must not move it under them
+		if opName == "addins" && before.hasPsigs && p.Locktime() != before.locktime {
+			add(op+".signedlock", fmt.Sprintf("locktime_%d_to_%d_under_partial_signatures", before.locktime, p.Locktime()))
 		}
 		if !before.outMod && len(p.Outputs) > before.nout {
 			add(op+".modout", "output-added-while-locked")
